@@ -196,14 +196,17 @@ def selftest():
     if not ok:
         return False
     lines = open(tp).read().split("\n")
-    # corrupt a return value: report one byte more consumed than the call said
-    idx = next(i for i, l in enumerate(lines) if '"op":"write"' in l and '"ret":["ok",' in l and '"inner":[[' in l and i > 3)
+    # corrupt an observation: the inner writer is said to have accepted one byte less of a piece while the call still
+    # reports everything consumed - a visible byte is lost
+    def pick(i, l):
+        if i <= 3 or '"op":"write"' not in l or '"ret":["ok",' not in l or '"inner":[[' not in l:
+            return False
+        o = json.loads(l)
+        return len(o["inner"]) == 1 and o["inner"][0][2] == "ok" and o["inner"][0][3] == o["inner"][0][1] >= 1 and o["ret"][1] >= o["inner"][0][0] + o["inner"][0][1]
+    idx = next(i for i, l in enumerate(lines) if pick(i, l))
     o = json.loads(lines[idx])
-    if o["ret"][1] < len(o["buf"]):
-        o["ret"][1] += 1
-    else:
-        o["ret"][1] -= 1
+    o["inner"][0][3] -= 1
     lines[idx] = json.dumps(o, separators=(",", ":"))
     open(tp, "w").write("\n".join(lines))
     ok, rej, _ = vlib.tlc_trace(tp, "Trace_StripStream", "c06-self-b", consts=lenient)
-    return (not ok) and rej["reject_at"] in (idx + 1, idx + 2)
+    return (not ok) and rej["reject_at"] == idx + 1
